@@ -6,6 +6,7 @@ import (
 	"go/token"
 	"go/types"
 	"log"
+	"sort"
 
 	"github.com/goghcrow/go-ast-matcher"
 	"github.com/goghcrow/go-imports"
@@ -184,6 +185,14 @@ func (r *rewriter) rewriteFile(f *loader.File, printer FilePrinter) {
 	log.Printf("write file: %s\n", f.Filename)
 	// clear free-floating comments, preventing confusing position of comments
 	// https://github.com/golang/go/issues/20744
+	if len(r.comments) > 0 {
+		// go/printer ignores the doc comments of nodes as soon as File.Comments is set,
+		// so keep them explicitly, otherwise directives (e.g. //go:embed) get lost
+		r.comments = append(r.comments, docComments(f.File)...)
+		sort.SliceStable(r.comments, func(i, j int) bool {
+			return r.comments[i].Pos() < r.comments[j].Pos()
+		})
+	}
 	f.File.Comments = r.comments
 	printer(f.Filename, f)
 }
